@@ -7,6 +7,7 @@ same loop with the reservation taken from `remaining()` instead of the chunk's r
 -/
 import BytesVerif.Model.Adv
 import BytesVerif.Lemmas.Adv
+import BytesVerif.Lemmas.AdvMore
 namespace BytesVerif.Adv
 
 def NoUB {α : Type} (r : Res α) : Prop := ∀ w, r ≠ .ub w
@@ -114,5 +115,62 @@ theorem putGrow_same_input_fine : ∃ r, putGrowLoop 10 liar 0 8 = .ok r := by
     simp only [putGrowLoop, hrem, bind_ok, hs, unsafeWrite, hl]
     simp [advance, remaining, liar, AdvBuf.cur, -List.reduceReplicate]
   exact ⟨_, key 8⟩
+
+/-! ### round 8: `Take` / `Chain` / `Limit` wrapped around the adversary (the remaining LyingBuf consumers of the stream) -/
+
+/-- `BytesMut::put(adv.take(limit))`: the unsafe copy of `extend_from_slice` always fits what `reserve` made room for -/
+theorem putGrowTakeLoop_no_ub (fuel : Nat) (b : AdvBuf) (limit len cap : Nat) :
+    NoUB (putGrowTakeLoop fuel b limit len cap) := by
+  exact putGrowTakeLoop_safe fuel b limit len cap
+
+/-- … and `Take` bounds it: at most `limit` bytes are appended whatever `remaining()` / `chunk()` claim; `len ≤ cap` is kept -/
+theorem putGrowTakeLoop_bound (fuel : Nat) (b : AdvBuf) (limit len cap len' cap' : Nat) (h : len ≤ cap)
+    (hr : putGrowTakeLoop fuel b limit len cap = .ok (len', cap')) : len' ≤ len + limit ∧ len ≤ len' ∧ len' ≤ cap' := by
+  exact putGrowTakeLoop_inv fuel b limit len cap len' cap' h hr
+
+/-- default `Buf::copy_to_bytes` on the adversary -/
+theorem defaultCopyToBytes_no_ub (fuel : Nat) (b : AdvBuf) (len : Nat) : NoUB (defaultCopyToBytes fuel b len) := by
+  exact defaultCopyToBytes_safe fuel b len
+
+/-- the `Bytes` it returns is never longer than requested (it may be shorter: wrong data is allowed, UB is not) -/
+theorem defaultCopyToBytes_len_le (fuel : Nat) (b : AdvBuf) (len n : Nat)
+    (hr : defaultCopyToBytes fuel b len = .ok n) : n ≤ len := by
+  exact defaultCopyToBytes_le fuel b len n hr
+
+theorem takeCopyToBytes_no_ub (fuel : Nat) (b : AdvBuf) (lim len : Nat) : NoUB (takeCopyToBytes fuel b lim len) := by
+  exact takeCopyToBytes_safe fuel b lim len
+
+theorem chainCopyToBytes_no_ub (fuel : Nat) (b : AdvBuf) (bLen len : Nat) : NoUB (chainCopyToBytes fuel b bLen len) := by
+  exact chainCopyToBytes_safe fuel b bLen len
+
+theorem chainChunksVectored_no_ub (b : AdvBuf) (bLen : Nat) : NoUB (chainChunksVectored b bLen) := by
+  exact chainChunksVectored_safe b bLen
+
+theorem chainChunksVectored_count (b : AdvBuf) (bLen n : Nat) (hr : chainChunksVectored b bLen = .ok n) : n ≤ 2 := by
+  exact chainChunksVectored_le b bLen n hr
+
+/-- `Chain<&[u8], Adv>::get_u64()` and friends: short first half, the rest through `copy_to_slice` -/
+theorem chainGetFixed_no_ub (fuel : Nat) (pre : Bs) (b : AdvBuf) (size : Nat) : NoUB (chainGetFixed fuel pre b size) := by
+  exact chainGetFixed_safe fuel pre b size
+
+theorem chainGetFixed_length (fuel : Nat) (pre : Bs) (b : AdvBuf) (size : Nat) (bs : Bs) (hp : pre.length ≤ size)
+    (hr : chainGetFixed fuel pre b size = .ok bs) : bs.length = size := by
+  exact chainGetFixed_len fuel pre b size bs hp hr
+
+/-- default `BufMut::put` into `Limit<&mut BytesMut>` -/
+theorem putLimit_no_ub (fuel : Nat) (b : AdvBuf) (limit len cap : Nat) : NoUB (putLimit fuel b limit len cap) := by
+  exact putLimit_safe fuel b limit len cap
+
+/-- `Limit` holds against a lying source: bytes written + limit left = limit before, and `len ≤ cap` is kept -/
+theorem putLimitLoop_bound (fuel : Nat) (b : AdvBuf) (limit len cap len' cap' limit' : Nat) (h : len ≤ cap)
+    (hr : putLimitLoop fuel b limit len cap = .ok (len', cap', limit')) :
+    len' + limit' = len + limit ∧ len' ≤ cap' := by
+  exact putLimitLoop_inv fuel b limit len cap len' cap' limit' h hr
+
+/-- non-vacuity: on the liar of the tightness section the Take-bounded copy really runs and is cut at the limit -/
+theorem defaultCopyToBytes_liar : ∃ n, defaultCopyToBytes 10 { liar with script := [⟨5, 80, 0⟩] } 4 = .ok n ∧ n = 4 := by
+  refine ⟨4, ?_, rfl⟩
+  simp [defaultCopyToBytes, putGrowTakeLoop, takeRemaining, takeChunk, takeAdvance, remaining, chunk, advance, sliceTo, unsafeWrite,
+    reserveCap, liar, AdvBuf.cur, -List.reduceReplicate]
 
 end BytesVerif.Adv
